@@ -62,3 +62,8 @@ package ast
 //@ typeinv ast.TableDeclaration self.Meta != nil && self.Name != nil && self.ValueType != nil
 //@ typeinv ast.TableProperty self.Meta != nil && self.Key != nil && self.Value != nil
 //@ typeinv ast.UnsetStatement self.Meta != nil && self.Ident != nil
+
+// C01: every node's Meta carries the token it was built from.
+//@ func New [C01]
+//@   ensures [meta-of-token] result != nil && fresh(result) && result.Token.Type == t.Type && result.Token.Line == t.Line && result.Token.Position == t.Position && result.Token.Literal == t.Literal
+//@   assigns idCounter
